@@ -1,5 +1,5 @@
 (* C20  With a log handler installed the library writes nothing to stdout or stderr. *)
-From Coq Require Import List.
+From Coq Require Import List String.
 From QSX Require Import Gen.Sites Log.LogModel.
 
 Theorem C20_no_site_can_write_std : offending = nil.
@@ -10,3 +10,9 @@ Theorem C20_handler_installed_nothing_on_std_streams :
   forall trace, incl trace sites -> std_writes trace = nil.
 Proof. exact handler_installed_nothing_on_std_streams. Qed.
 Print Assumptions C20_handler_installed_nothing_on_std_streams.
+
+(* the premise "a handler is installed" is preserved by the library: only the host's own entry point changes the registration *)
+Theorem C20_handler_registration_only_by_host :
+  forall s, In s sites -> is_handler_state s = true -> s_base s = "QSlog_set_handler"%string.
+Proof. exact handler_registration_only_by_host. Qed.
+Print Assumptions C20_handler_registration_only_by_host.
